@@ -153,6 +153,9 @@ func (t Thing) ShallowCopy() *Thing {
 
 func (t *Thing) useConf() int { return t.conf }
 
+// SHARED control: ShallowCopy shares the map M, which put() stores through
+func (t *Thing) put(k uint64) { t.M[k] = k }
+
 // LANE control: lane 2 reads x[3]
 func laneBad(x, y, z *[8]uint64, q uint64) {
 	z[0] = x[0] + y[0] + q
